@@ -26,7 +26,7 @@ ASSUMPTIONS = ["(merge) data values are exactly 0 or >= 1e-100 in magnitude (no 
 # ------------------------------------------------------------------ part 1: the merge routine
 @st.composite
 def datasets(draw, tier):
-    fam = draw(st.sampled_from(["plain", "constant", "offset", "mixed"]))
+    fam = draw(st.sampled_from(["plain", "constant", "offset", "mixed", "repeated_block"]))
     n = draw(st.integers(2, 40))
     fl = st.floats(-10, 10, allow_nan=False, width=64)
     if fam == "constant":
@@ -38,6 +38,10 @@ def datasets(draw, tier):
             xs = [x + off for x in xs]
         elif fam == "mixed":
             xs = [x * (10.0 ** ((i % 5) - 2)) for i, x in enumerate(xs)]
+        elif fam == "repeated_block":
+            # the data are one block repeated (second copy reversed): chunks with exactly equal means and variances are merged
+            blk = xs[:max(2, n // 2)]
+            xs = blk + blk[::-1] + (blk if draw(st.booleans()) else [])
     xs = [0.0 if abs(x) < 1e-100 else x for x in xs]       # squares of smaller numbers underflow in any float64 implementation (variance in the denormal range)
     cuts = sorted(set(draw(st.lists(st.integers(2, max(2, n - 2)), max_size=5))))
     return {"xs": xs, "cuts": cuts, "family": fam}
